@@ -207,12 +207,17 @@ func TypeBindingClauseHook(t StatementType) ClauseHook {
 func dataAccumulator(b literal.Builder) ElementHook {
 	var (
 		hook ElementHook
+		cur  *Statement // The statement the partial triple below belongs to.
 		s    *node.Node
 		p    *predicate.Predicate
 		o    *triple.Object
 	)
 
 	hook = func(st *Statement, ce ConsumedElement) (ElementHook, error) {
+		if st != cur {
+			// A new statement starts; drop what a previous (failed) one left behind.
+			cur, s, p, o = st, nil, nil, nil
+		}
 		if ce.IsSymbol() {
 			return hook, nil
 		}
@@ -354,9 +359,14 @@ func whereInitWorkingClause() ClauseHook {
 func whereSubjectClause() ElementHook {
 	var (
 		hook         ElementHook
+		cur          *Statement // The statement lastNopToken belongs to.
 		lastNopToken *lexer.Token
 	)
 	hook = func(st *Statement, ce ConsumedElement) (ElementHook, error) {
+		if st != cur {
+			// A new statement starts; drop what a previous one left behind.
+			cur, lastNopToken = st, nil
+		}
 		if ce.IsSymbol() {
 			return hook, nil
 		}
@@ -509,9 +519,14 @@ func processPredicateBound(ce ConsumedElement) (string, string, string, *time.Ti
 func wherePredicateClause() ElementHook {
 	var (
 		hook         ElementHook
+		cur          *Statement // The statement lastNopToken belongs to.
 		lastNopToken *lexer.Token
 	)
 	hook = func(st *Statement, ce ConsumedElement) (ElementHook, error) {
+		if st != cur {
+			// A new statement starts; drop what a previous one left behind.
+			cur, lastNopToken = st, nil
+		}
 		if ce.IsSymbol() {
 			return hook, nil
 		}
@@ -581,9 +596,14 @@ func wherePredicateClause() ElementHook {
 func whereObjectClause() ElementHook {
 	var (
 		hook         ElementHook
+		cur          *Statement // The statement lastNopToken belongs to.
 		lastNopToken *lexer.Token
 	)
 	hook = func(st *Statement, ce ConsumedElement) (ElementHook, error) {
+		if st != cur {
+			// A new statement starts; drop what a previous one left behind.
+			cur, lastNopToken = st, nil
+		}
 		if ce.IsSymbol() {
 			return hook, nil
 		}
@@ -785,9 +805,14 @@ func whereFilterClause() ElementHook {
 func varAccumulator() ElementHook {
 	var (
 		hook         ElementHook
+		cur          *Statement // The statement lastNopToken belongs to.
 		lastNopToken *lexer.Token
 	)
 	hook = func(st *Statement, ce ConsumedElement) (ElementHook, error) {
+		if st != cur {
+			// A new statement starts; drop what a previous one left behind.
+			cur, lastNopToken = st, nil
+		}
 		if ce.IsSymbol() {
 			return hook, nil
 		}
@@ -1035,10 +1060,15 @@ func limitCollection() ElementHook {
 func collectGlobalBounds() ElementHook {
 	var (
 		hook      ElementHook
+		cur       *Statement // The statement opToken and lastToken belong to.
 		opToken   *lexer.Token
 		lastToken *lexer.Token
 	)
 	hook = func(st *Statement, ce ConsumedElement) (ElementHook, error) {
+		if st != cur {
+			// A new statement starts; drop what a previous one left behind.
+			cur, opToken, lastToken = st, nil, nil
+		}
 		if ce.IsSymbol() {
 			return hook, nil
 		}
